@@ -14,6 +14,7 @@ import json
 import os
 
 from translator import forms as T_forms
+from translator import c13_builtins as T_bi
 from translator.pyexpr import TranslateError
 from vlib import common
 
@@ -56,6 +57,24 @@ def run(ctx):
             ra = ctx.coq(["C13_assemble.v"], timeout=300)
             rl = ctx.coq(["C13_linear.v"], timeout=300) if ra.ok else None
             rf = ctx.coq(["C13_fieldcall.v"], timeout=300)
+    # built-in operators regenerated from their einsum / matmul expressions, and the thermal corollary
+    rb = rt = None
+    try:
+        bi = T_bi.translate(ctx.repo)
+        ctx.obligation("translate:builtins", True, "; ".join("%s := %s" % (k, v[:90]) for k, v in bi["ops"].items()))
+        ctx.cov["translated_builtins"] = bi["ops"]
+        open(os.path.join(ctx.build, "Gen_Builtins.v"), "w").write(T_bi.emit_coq(bi))
+        ctx.copy_props("C13/C13_builtins_gen.v", "C13/C13_thermal.v")
+        if r1.ok and ctx.coq(["Gen_Builtins.v"], timeout=120).ok:
+            rb = ctx.coq(["C13_builtins_gen.v"], timeout=600)
+            if rb.ok and ok_static:
+                rt = ctx.coq(["C13_thermal.v"], timeout=300)
+            elif rb.ok:
+                ctx.log("note: EFLib not built at the moment; C13_thermal.v (needs EFLib.C02_QuadForm) skipped")
+    except (TranslateError, SyntaxError, OSError) as ex:
+        ctx.obligation("translate:builtins", False, str(ex))
+        ctx.violation("translate:builtins", "translator rejected the built-in operators' source: %s (form_* = source operator theorems are not re-proved; the correspondence still runs)" % ex,
+                      {"construct": str(ex)}, found_input=False)
     ctx.sample({"theorem": "loop_is_gram_matrix : forall f x y, sum_i sum_j x i * integrate_e f i j * y j = sum_p w p * dform f p (fsum nd x p) (fsum nd y p)",
                 "proof": "form_semantics_bilinear (induction on the form AST) + exchange of finite sums"})
     # ---- correspondence ------------------------------------------------------------------
@@ -116,6 +135,6 @@ def run(ctx):
             continue
         seen.add(key)
         ctx.violation(key, "%s (%s): %s" % (c["what"], c["form"][:120], c["detail"][:300]), rep(c), found_input=(c["kind"] != "harness"))
-    for r, f in ((r1, "C13_forms/builtins"), (ra, "C13_assemble.v")):
+    for r, f in ((r1, "C13_forms/builtins"), (ra, "C13_assemble.v"), (rb, "C13_builtins_gen.v"), (rt, "C13_thermal.v")):
         if r is not None and not r.ok:
             ctx.violation("proof-broken:%s" % (r.failed_file or f), "theorem file %s no longer checks" % (r.failed_file or f), {"log": r.log[-3000:]}, found_input=False)
